@@ -32,7 +32,8 @@ where
             // Sitting exactly on zero: converged once the step vanishes
             0.0
         } else {
-            100.0
+            // Moved onto 0 by a non-zero step: no tolerance counts that as converged
+            f64::INFINITY
         };
         if approx_err.abs() < error_tol || iter >= itermax {
             break;
